@@ -587,7 +587,7 @@ class WSGIApp:
         try:
             return reference.resolve(self.object_store)
         except (KeyError, TypeError, model.UnexpectedTypeError) as e:
-            raise werkzeug.exceptions.InternalServerError(str(e)) from e
+            raise NotFound(str(e)) from e
 
     @classmethod
     def _get_nested_submodel_element(cls, namespace: model.UniqueIdShortNamespace, id_shorts: List[str]) \
